@@ -1181,7 +1181,13 @@ func runLoaderProp(prop string, judge string) {
 			if c.Bytes != "" {
 				// byte-level mutants: outcome only (no store model)
 				if o.Out >= 2 {
-					meta.GoViolation = append(meta.GoViolation, map[string]any{"signature": fmt.Sprintf("bytes:outcome=%d", o.Out), "cases": []any{c}, "go_observation": o, "judgement": "loading mutated bytes: " + o.Err})
+					sig := fmt.Sprintf("bytes:outcome=%d", o.Out)
+					if o.Out == 2 && strings.HasPrefix(o.Err, "interface conversion: interface {} is *openapi3.") && strings.Contains(o.Err, ", not *openapi3.") {
+						// the recorded finding (class 1 of the modelled cases): a backtrack callback asserts its own routine's
+						// type on what a routine of another kind resolved under the same reference text
+						sig += ":callback-of-another-kind"
+					}
+					meta.GoViolation = append(meta.GoViolation, map[string]any{"signature": sig, "cases": []any{c}, "go_observation": o, "judgement": "loading mutated bytes: " + o.Err})
 				}
 				meta.Histogram["byte_mutants"]++
 				continue
@@ -1661,19 +1667,22 @@ func lcaseRoot(c *LCase) map[string]any {
 // files (the recorded finding: Validate checks defaults and examples through VisitJSON, which follows
 // such edges without end).  Files are told apart by their base names, which the generators keep distinct.
 func lcaseCompositionCycle(c *LCase) bool {
-	docs := map[string]map[string]any{}
+	// every document the loader may read under a file name: the root as loaded (its bytes, possibly mutated) and
+	// the root as the store holds it (a reference from another file back into the root is read from the store)
+	type fdoc struct {
+		file string
+		doc  map[string]any
+	}
+	var docs []fdoc
 	base := func(u string) string { return u[strings.LastIndex(u, "/")+1:] }
 	if c.Bytes != "" {
-		docs[base(c.Root)] = lcaseRoot(c)
+		docs = append(docs, fdoc{base(c.Root), lcaseRoot(c)})
 	}
 	for _, f := range c.Files {
-		if _, done := docs[base(f.URI)]; done {
-			continue
-		}
 		var d map[string]any
 		b, _ := json.Marshal(f.Doc)
 		json.Unmarshal(b, &d)
-		docs[base(f.URI)] = d
+		docs = append(docs, fdoc{base(f.URI), d})
 	}
 	edges := map[string][]string{}
 	target := func(file, r string) (string, bool) {
@@ -1708,7 +1717,8 @@ func lcaseCompositionCycle(c *LCase) bool {
 		}
 		collect(file, from, m["not"])
 	}
-	for file, d := range docs {
+	for _, fd := range docs {
+		file, d := fd.file, fd.doc
 		comps, _ := d["components"].(map[string]any)
 		schemas, _ := comps["schemas"].(map[string]any)
 		for name, sch := range schemas {
